@@ -142,6 +142,34 @@ def h15(S, backend="mem", backlog=3, steps=3, window=None, foreign=True, retried
     run_async(main)
 
 
+def h15_redis_same_id(S):
+    """Redis: a job with a fixed id enqueued again while its earlier occurrence still waits keeps its place in the order."""
+    from fakes import redis as fr
+    from repid.data._key import RoutingKey
+    import repid.data._parameters as P
+
+    n_between = S.pick("messages_between_the_two_occurrences", 2) + 1
+    n_after = S.pick("messages_after_the_second_occurrence", 2)
+    got = []
+
+    async def main(loop):
+        br = fr.mk_broker(fr.FakeServer())
+        order = ["X"] + [f"a{i}" for i in range(n_between)] + ["X"] + [f"b{i}" for i in range(n_after)]
+        for i in order:
+            await br.enqueue(RoutingKey(topic="job", queue="default", id_=i), "p", P.Parameters(timestamp=P.datetime.now()))
+        cons = br.get_consumer("default", ["job"])
+        cons.POLLING_WAIT = 0
+        for _ in order:
+            m = await cons.consume_or_none()
+            got.append(None if m is None else m[0].id_)
+        S.note("enqueued", order)
+
+    run_async(main)
+    S.cover("same-id-twice")
+    want = ["X"] + [f"a{i}" for i in range(n_between)] + ["X"] + [f"b{i}" for i in range(n_after)]
+    S.check("fifo-not-overtaken", got == want, info=f"enqueued {want}, delivered {got}")
+
+
 def _mk(backend, **kw):
     def scen(S, **p):
         return h15(S, backend=backend, **{**kw, **p})
@@ -174,6 +202,9 @@ HARNESSES = [
             params={"quick": {"backlog": 12, "steps": 2}, "thorough": {"backlog": 13, "steps": 3}},
             bounds={"fetch window": "the real PREFETCH_AMOUNT (10)", "initial backlog": "12 / 13 own messages", "then": "2 / 3 operations, then drain"},
             covers=["consumed", "drained"]),
+    Harness(name="H15-redis-same-id", scenario=h15_redis_same_id,
+            bounds={"sequence": "X, 1-2 others, X again, 0-1 others; consumed without acknowledging in between"},
+            functions=["connections/redis/consumer.py:_RedisConsumer.__get_message_name"], covers=["same-id-twice"], stubs=["fake Redis server"]),
     Harness(name="H15-rabbit", scenario=_mk("rabbit"), workers=16, budget_s=900,
             params={"quick": {"backlog": 2, "steps": 4, "foreign": False, "retried_first": False}, "thorough": {"backlog": 3, "steps": 5, "foreign": False, "retried_first": False}},
             bounds={"initial backlog": "2 / 3 own messages", "then": "4 / 5 operations, then drain"},
